@@ -77,10 +77,24 @@ type StreamScript struct {
 	Canceller bool         `json:"canceller,omitempty"`
 }
 
+// sentinelRpcErrs: scripted handlers fail with package-level sentinel values (`var ErrNotFound = &RpcError{...}`
+// is ordinary Go): the SAME *RpcError is returned by every call of the process that scripts the same error, so
+// anything the framework stamps on an error value while writing one response shows up in a later one.
+var sentinelRpcErrs sync.Map
+
+func sentinelRpc(ty, msg, kind string) *vgirpc.RpcError {
+	k := ty + "\x00" + msg + "\x00" + kind
+	if v, ok := sentinelRpcErrs.Load(k); ok {
+		return v.(*vgirpc.RpcError)
+	}
+	v, _ := sentinelRpcErrs.LoadOrStore(k, &vgirpc.RpcError{Type: ty, Message: msg, Kind: kind})
+	return v.(*vgirpc.RpcError)
+}
+
 func (e *ErrSpec) raise() error {
 	switch e.Kind {
 	case "rpc":
-		return &vgirpc.RpcError{Type: e.Type, Message: e.Msg, Kind: e.ErrKind}
+		return sentinelRpc(e.Type, e.Msg, e.ErrKind)
 	case "custom":
 		return &harnessCustomErr{msg: e.Msg}
 	case "plain":
